@@ -292,7 +292,16 @@ func (r *regRun) nameCases(n int) {
 	for _, c := range nameClasses {
 		all = append(all, c...)
 	}
-	all = append(all, "../"+root+"/x", "../"+root, "a/../../"+root+"/y", "..", "../x", root+"/x", "/orbitdb/"+root+"/x", "x/../../"+root+"/seed")
+	all = append(all, "..", "../x", root+"/x", "/orbitdb/"+root+"/x", "/orbitdb/"+root)
+	// names that try to walk out of the database root into another root: every way of
+	// writing "go up" that path cleaning resolves, in front of a valid CID
+	for _, pre := range []string{"", "/", "//", "./", "a/../", "/a/../", "a/b/../../", "/./"} {
+		for _, up := range []string{"../", "../../", ".././", "..//"} {
+			for _, suf := range []string{"/x", "/seed", ""} {
+				all = append(all, pre+up+root+suf)
+			}
+		}
+	}
 	sort.Strings(all)
 	rng.Shuffle(len(all), func(i, j int) { all[i], all[j] = all[j], all[i] })
 	if n > 0 && n < len(all) {
